@@ -679,6 +679,8 @@ int cmd_run(const Args &a) {
   s.set("state_op_outcome_triples", coverage_triples());
   s.set("edges_total", (long)sim_edges_total());
   s.set("edges_hit", (long)sim_edges_hit());
+  s.set("lib_initial_capacity", lib_geometry().initial);
+  s.set("lib_growth_step", lib_geometry().step);
   s.set("corpus_lines", (long)corpus_all().size());
   s.set("corpus_dropped", (long)corpus_dropped());
   s.set("oracle_entries", enc_cache_size());
